@@ -14,7 +14,7 @@ use std::sync::Arc;
 use stateright::{Checker, Model, Property};
 
 /// wall-clock budget of one breadth-first search in seconds (set by main according to the tier)
-pub static BFS_BUDGET_S: std::sync::atomic::AtomicU64 = std::sync::atomic::AtomicU64::new(20);
+pub static BFS_BUDGET_S: std::sync::atomic::AtomicU64 = std::sync::atomic::AtomicU64::new(60);
 
 /// Wrapper giving a real object (Debug + PartialEq via the hooks) a `Hash` based on its complete
 /// Debug rendering.  The rendering is only used as an identity, never parsed.
@@ -113,7 +113,7 @@ pub fn bfs<Y: Sys>(sys: &Y, keep_edges: bool, max_states: usize) -> Graph<Y> {
             g.capped = true;
             break;
         }
-        // wall-clock budget per search (20 s quick, 120 s thorough; the searches on the tree as it is take < 2 s): a changed
+        // wall-clock budget per search (60 s quick, 300 s thorough; the searches on the tree as it is take a few seconds at most): a changed
         // tree with many large states ends as "capped, not exhaustive" with what was found instead of hitting vcheck's kill
         if head % 256 == 0 && started.elapsed().as_secs() >= BFS_BUDGET_S.load(std::sync::atomic::Ordering::Relaxed) {
             g.capped = true;
@@ -212,7 +212,7 @@ pub fn explore_both<Y: Sys>(sys: Arc<Y>, keep_edges: bool, max_states: usize) ->
     // The stateright run is a cross-check of the explorer itself; it matters on the tree as it is (small state spaces,
     // sub-second). On a changed tree whose states are many or large the own BFS alone can take tens of seconds; the
     // cross-check is then skipped so that the check still ends within its wall-clock budget with its findings.
-    let slow = t0.elapsed().as_secs_f64() > 10.0;
+    let slow = t0.elapsed().as_secs_f64() > 30.0;
     let sr = if g.capped || slow {
         SrResult { unique_states: if slow && !g.capped { g.states.len() } else { 0 }, generated: 0, max_depth: 0, counterexample: None }
     } else {
